@@ -23,6 +23,8 @@ type Trace10 struct {
 	Addon   string `json:"addon,omitempty"`   // add-on digits
 	Par     int    `json:"parity,omitempty"`  // add-on parity pattern
 	Scale   int    `json:"scale,omitempty"`   // 0: row handed to DecodeRow; >0: rendered image at this scale
+	// Prev lists symbols read earlier on the same reader instances (instance-reuse history)
+	Prev []*Trace10 `json:"prev,omitempty"`
 }
 
 func digitsOf(s string) []int {
@@ -64,7 +66,24 @@ func newWriter(sym string) gozxing.Writer {
 	return nil
 }
 
+// readerCache, when non-nil, makes newReader hand out one instance per
+// symbology for the whole run, so that per-instance scratch buffers carry
+// over from one symbol to the next (instance-reuse histories).
+var readerCache map[string]gozxing.Reader
+
 func newReader(sym string) gozxing.Reader {
+	if readerCache != nil {
+		if r, ok := readerCache[sym]; ok {
+			return r
+		}
+		r := freshReader(sym)
+		readerCache[sym] = r
+		return r
+	}
+	return freshReader(sym)
+}
+
+func freshReader(sym string) gozxing.Reader {
 	switch sym {
 	case "ean13":
 		return oned.NewEAN13Reader()
@@ -320,6 +339,32 @@ func read(rd gozxing.Reader, row []bool, scale int) (o readOut) {
 func isReaderErr(err error) bool {
 	_, ok := err.(gozxing.ReaderException)
 	return ok
+}
+
+// execChain10 executes tr after its Prev history on fresh shared instances.
+func execChain10(tr *Trace10, probe func(string)) (string, *fail) {
+	if len(tr.Prev) == 0 {
+		old := readerCache
+		readerCache = nil
+		defer func() { readerCache = old }()
+		return exec10(tr, probe)
+	}
+	old := readerCache
+	readerCache = map[string]gozxing.Reader{}
+	defer func() { readerCache = old }()
+	for _, p := range tr.Prev {
+		q := *p
+		q.Prev = nil
+		exec10(&q, func(string) {})
+	}
+	q := *tr
+	q.Prev = nil
+	out, f := exec10(&q, probe)
+	if f != nil {
+		f.class = "reused/" + f.class
+		f.detail += fmt.Sprintf(" [the same reader instance had read %d other symbol(s) before]", len(tr.Prev))
+	}
+	return out, f
 }
 
 // curTrace10 is the trace being executed (for hang reports).
@@ -747,6 +792,45 @@ func randDigits(r *kit.RNG, n int) []int {
 	return d
 }
 
+// reportWithHistory reports a reader-side failure seen on a re-used reader
+// instance: as a single-symbol trace if it also fails on a fresh reader,
+// otherwise with the (ddmin-minimised) list of symbols read before on the same
+// instances.
+func reportWithHistory(c *kit.Ctx, tr *Trace10, f *fail, hist []*Trace10) {
+	if _, f2 := execChain10(tr, func(string) {}); f2 != nil {
+		report10(c, tr, f2)
+		return
+	}
+	t2 := *tr
+	t2.Prev = hist
+	_, f3 := execChain10(&t2, func(string) {})
+	if f3 == nil {
+		report10(c, tr, f) // will not reproduce: surfaces as a harness error, never silently dropped
+		return
+	}
+	keep := kit.DDMinN(len(hist), 300, func(idx []int) bool {
+		t3 := *tr
+		for _, i := range idx {
+			t3.Prev = append(t3.Prev, hist[i])
+		}
+		if len(t3.Prev) == 0 {
+			return false
+		}
+		_, f4 := execChain10(&t3, func(string) {})
+		return f4 != nil && f4.class == f3.class
+	})
+	t2.Prev = nil
+	for _, i := range keep {
+		t2.Prev = append(t2.Prev, hist[i])
+	}
+	if _, f5 := execChain10(&t2, func(string) {}); f5 != nil {
+		f3 = f5
+	} else {
+		t2.Prev = hist
+	}
+	report10(c, &t2, f3)
+}
+
 func report10(c *kit.Ctx, tr *Trace10, f *fail) {
 	c.Violate(f.class, f.class+"/"+tr.Sym, f.detail, tr)
 }
@@ -791,8 +875,20 @@ func C10() *kit.Spec {
 			r := c.RNG
 			watchCtx = c
 			probe := func(p string) { c.Count(p, 1) }
+			readerCache = map[string]gozxing.Reader{}
+			var hist []*Trace10
 			do := func(tr *Trace10, hash bool) bool {
 				out, f := exec10(tr, probe)
+				if f != nil && (tr.Kind == "reader" || tr.Kind == "addon" || tr.Kind == "c128" || tr.Kind == "c93") {
+					reportWithHistory(c, tr, f, hist)
+					return false
+				}
+				if tr.Kind == "reader" || tr.Kind == "addon" || tr.Kind == "c128" || tr.Kind == "c93" {
+					if len(hist) < 400 {
+						cp := *tr
+						hist = append(hist, &cp)
+					}
+				}
 				c.Steps(1)
 				if hash {
 					c.Eval(kit.HashJSON(tr), tr.Pos >= 0 || tr.Kind == "addon")
@@ -811,6 +907,7 @@ func C10() *kit.Spec {
 			case "upce-sweep":
 				w := oned.NewUPCEWriter()
 				rd := oned.NewUPCEReader()
+				var sweepHist []*Trace10
 				step := 1
 				var cnt int64
 				for n := j.lo; n < j.hi; n++ {
@@ -858,8 +955,12 @@ func C10() *kit.Spec {
 						o := read(rd, ref.UPCE(digitsOf(want)), 0)
 						cnt++
 						if _, f := judgeUPCEAN(tr, o, want, true, probe); f != nil {
-							report10(c, tr, f)
+							reportWithHistory(c, tr, f, sweepHist)
 							return
+						}
+						sweepHist = append(sweepHist, tr)
+						if len(sweepHist) > 8 {
+							sweepHist = sweepHist[1:]
 						}
 					}
 				}
@@ -963,6 +1064,9 @@ func C10() *kit.Spec {
 			case "char":
 				kind := []string{"c128", "c93"}[r.Intn(2)]
 				n := r.Range(1, 14)
+				if r.Chance(1, 3) {
+					n = r.Range(15, 70) // beyond one and two cycles of the Code 93 weights (20 / 15)
+				}
 				var vals []int
 				var text string
 				if kind == "c128" {
@@ -1001,8 +1105,12 @@ func C10() *kit.Spec {
 				if kind == "c93" {
 					max = 47
 				}
+				stride := 1
+				if len(vals) > 20 {
+					stride = 5 // long symbols: every position, every 5th replacement (random phase)
+				}
 				for pos := 0; pos < len(vals); pos++ {
-					for v := 0; v < max; v++ {
+					for v := r.Intn(stride); v < max; v += stride {
 						if v == vals[pos] {
 							continue
 						}
@@ -1049,7 +1157,7 @@ func C10() *kit.Spec {
 				return
 			}
 			watchCtx = c
-			if _, f := exec10(tr, func(string) {}); f != nil {
+			if _, f := execChain10(tr, func(string) {}); f != nil {
 				report10(c, tr, f)
 			}
 		},
